@@ -17,7 +17,7 @@ class SkipRule(Exception):
 
 
 # rules that interpret function bodies on thousands of inputs, each implemented by a dedicated entry function (run_rule / run_*_rule) of a helper module
-SLOW_RULES = {'C01-R12', 'C01-R9', 'C10-R12', 'C10-R11', 'C09-R10', 'C02-R13', 'C02-R14', 'C02-R15', 'C02-R16', 'C02-R17', 'C02-R18', 'C09-R8', 'C09-R9', 'C04-R7', 'C12-R6', 'C12-R7', 'C08-R6', 'C01-R7', 'C02-R19', 'C11-R8'}
+SLOW_RULES = {'C12-R9', 'C04-R18', 'C16-R7', 'C01-R12', 'C01-R9', 'C10-R12', 'C10-R11', 'C09-R10', 'C02-R13', 'C02-R14', 'C02-R15', 'C02-R16', 'C02-R17', 'C02-R18', 'C09-R8', 'C09-R9', 'C04-R7', 'C12-R6', 'C12-R7', 'C08-R6', 'C01-R7', 'C02-R19', 'C11-R8'}
 
 
 def guard_entry_points(modules):
